@@ -139,6 +139,10 @@ impl RankSelectMixedIL256 {
         if pos == 0 { return 0; }
         let line_idx = pos / LINE_BITS;
         let bit_in_line = pos % LINE_BITS;
+        if line_idx >= self.lines.len() {
+            // pos == size[dim], a multiple of LINE_BITS: everything is counted
+            return self.max_rank1[dim];
+        }
         let dl = &self.lines[line_idx].dim[dim];
         dl.rlev1 as usize + dl.rank1_within(bit_in_line)
     }
